@@ -13,6 +13,7 @@ VARIABLE l
 FS == INSTANCE FooterScan WITH MaxTok <- 0, Big <- 1000000, toks <- <<>>
 AD == INSTANCE Adaptive WITH Den <- 8, MaxLen <- 0, MaxScore <- 0, Thresholds <- {}, MinResults <- {}, c <- 0
 SN == INSTANCE Snippet WITH Gap <- 20, MaxChars <- 0, Windows <- {}, Maxes <- {}, OccStarts <- {}, OccLens <- {}, MaxOcc <- 0, c <- 0
+CP == INSTANCE Capsule WITH MaxChunks <- 0, c <- 0
 QL == INSTANCE QueryLang WITH MaxDepth <- 128, BaseAtoms <- {}, AstDepth <- 0, ast <- 0, expl <- FALSE
 
 Chk(nm, cond) == IF cond THEN TRUE ELSE (Debug /\ PrintT(<<"MISMATCH", l, nm>>))
@@ -79,12 +80,22 @@ QueryOk(i, o) ==
                    DChk("query.eval", /\ Len(o.matches) = Len(i.docs)
                                       /\ \A k \in 1..Len(i.docs) : o.matches[k] = QL!Eval(r.e, DocSet(i.docs[k]))))
 
+(* ------------------------------- C29 ------------------------------------ *)
+CapsuleOk(i, o) ==
+  IF o.skipped THEN TRUE
+  ELSE /\ Chk("capsule.panic", o.res # "panic")
+       /\ Chk("capsule.roundtrip", ~o.modified => (o.ok /\ o.same))                    \* unlock(lock(f)) = f
+       /\ Chk("capsule.wrong_plaintext", o.wrote => o.same)                             \* never writes a plaintext that differs from f
+       /\ Chk("capsule.tamper_accepted", o.modified => ~o.ok)                           \* any modification makes unlock fail
+       /\ DChk("capsule.model", o.ok = CP!Unlock(CP!CapOf(o.nchunks, i.tamper), o.nchunks)[1])
+
 Init == l = 1
 Next == /\ l <= Len(Rec) /\ l' = l + 1
         /\ CASE Ev.ev = "footer" -> FooterOk(Ev.in, Ev.out)
              [] Ev.ev = "adaptive" -> AdaptiveOk(Ev.in, Ev.out)
              [] Ev.ev = "snippet" -> SnippetOk(Ev.in, Ev.out)
              [] Ev.ev = "query" -> QueryOk(Ev.in, Ev.out)
+             [] Ev.ev = "capsule" -> CapsuleOk(Ev.in, Ev.out)
              [] OTHER -> FALSE
 TraceSpec == Init /\ [][Next]_l
 
